@@ -401,20 +401,29 @@ Print Assumptions wrapper_ignored_command_bypasses.
 
 (* which outcomes are failures, per wrapper *)
 Theorem wrapper_acceptability_table :
-  (forall d, codes_acceptable d = false <-> d = DStallTimeout \/ exists c, d = DStatus c /\ grpc_failure_code c = true) /\
+  (forall d, codes_acceptable d = false <-> canon d = DStallTimeout \/ exists c, canon d = DStatus c /\ grpc_failure_code c = true) /\
   (forall d, server_acceptable d = false <->
-     d = DCtxDeadline \/ d = DBreakerUnavailable \/ d = DWrappedDeadline \/ d = DWrappedBreakerUnavailable \/
-     d = DStallTimeout \/ exists c, d = DStatus c /\ grpc_failure_code c = true) /\
+     canon d = DCtxDeadline \/ canon d = DBreakerUnavailable \/ canon d = DWrappedDeadline \/ canon d = DWrappedBreakerUnavailable \/
+     canon d = DStallTimeout \/ exists c, canon d = DStatus c /\ grpc_failure_code c = true) /\
   (forall d, redis_acceptable d = true <->
-     d = DNil \/ d = DRedisNil \/ d = DWrappedRedisNil \/ d = DCtxCanceled \/ d = DWrappedCanceled) /\
+     canon d = DNil \/ canon d = DRedisNil \/ canon d = DWrappedRedisNil \/ canon d = DCtxCanceled \/ canon d = DWrappedCanceled) /\
   (forall d, sql_acceptable d = true <->
-     d = DNil \/ d = DSqlNoRows \/ d = DSqlTxDone \/ d = DCtxCanceled \/ d = DWrappedCanceled \/ d = DSqlAcceptable \/
-     d = DWrappedSqlNoRows \/ d = DWrappedSqlTxDone \/
-     exists i n, d = DSqlCustom i n /\ 1 <= i <= n) /\
-  (forall d, sqlq_acceptable d = true <-> d = DSqlScanFail \/ sql_acceptable d = true) /\
+     canon d = DNil \/ canon d = DSqlNoRows \/ canon d = DSqlTxDone \/ canon d = DCtxCanceled \/ canon d = DWrappedCanceled \/
+     canon d = DSqlAcceptable \/ canon d = DWrappedSqlNoRows \/ canon d = DWrappedSqlTxDone \/
+     exists i n, canon d = DSqlCustom i n /\ 1 <= i <= n) /\
+  (forall d, sqlq_acceptable d = true <-> canon d = DSqlScanFail \/ sql_acceptable d = true) /\
   (forall h, rest_accepts h = true <-> h_code h < 500) /\ rest_accepts (HPanic None) = true.
 Proof. exact acceptability_tables. Qed.
 Print Assumptions wrapper_acceptability_table.
+
+(* error SHAPES (errors.Is semantics; [canon] above): at every site a sentinel wrapped twice, inside
+   errors.Join (first / last), inside a multi-%w error or matched through a custom Is method
+   (a net timeout error and context.DeadlineExceeded) is classified exactly like the bare sentinel.
+   (Seeded C01-12: errorx.In walking Unwrap with == does not see into joins / multi-%w / Is methods.) *)
+Theorem wrapper_matches_sentinels_in_every_shape : forall k s b,
+  w_acceptable k (DShaped s b) = w_acceptable k (bare b).
+Proof. exact shaped_like_bare. Qed.
+Print Assumptions wrapper_matches_sentinels_in_every_shape.
 
 (* DeadlineExceeded 4, ResourceExhausted 8, Unimplemented 12, Internal 13, Unavailable 14, DataLoss 15 *)
 Theorem grpc_failure_codes : forall c,
